@@ -182,6 +182,21 @@ def run(ctx):
                 ".table 't.tbl'\n.macro t() {\n.text 'ab'\n}\n{\nt()\nt()\n}\n", ".scope s {\n.for i := 0, 2 {\n.text 'b'\n}\n}\n"]
         for src in fam:
             progs.append({"src": src, "rom": "low_rom", "files": {"self.s": ".include 'self.s'\n", "t.tbl": "01=a\n02=b\n"}, "bins": {}, "hist": {}})
+        # .text strings with bracket markup that is opened and never closed, closed and never opened, cut short ...
+        pieces = ["[", "]", "[0x", "[0x4", "[0x41]", "[0xZZ]", "[wait", "[tag]", "[t", "a", "b", "ab", " ", "\\", "?", "[[", "]]", "[]", "[0x]", "0x41]"]
+        tables = ["01=a\n02=b\n", "01=a\n02=b\n10=ab\n20=[tag]\n", "30=[\n31=]\n01=a\n", "01=a\n0203=[t\n"]
+        for _ in range(40 if tier == "quick" else 600):
+            txt = "".join(rng.choice(pieces) for _ in range(rng.randrange(1, 6)))
+            src = ".table 't.tbl'\n*=0x008000\n" + rng.choice(["", "{\n"]) + f".text '{txt}'\nafter:\n.dw after\n"
+            if "{\n" in src:
+                src += "}\n"
+            progs.append({"src": src, "rom": "low_rom", "files": {"t.tbl": rng.choice(tables)}, "bins": {}, "hist": {}})
+        # deep nesting: the work per reference must not explode with the number of enclosing scopes
+        for depth in ((30, 45) if tier == "quick" else (25, 30, 40, 60, 90)):
+            progs.append({"src": "top := 7\nlab:\n" + "{\n" * depth + ".db top\n.dw lab\n" + "}\n" * depth, "rom": "low_rom", "files": {}, "bins": {}, "hist": {}})
+            progs.append({"src": f"top := 7\n.macro rec(n) {{\n.if n {{\nrec(n - 1)\n}} else {{\n.db top\n}}\n}}\nrec({depth})\n", "rom": "low_rom", "files": {}, "bins": {}, "hist": {}})
+            progs.append({"src": "top = 7\n" + "".join(f".scope s{i} {{\n" for i in range(depth)) + "lda.w top\n" + "}\n" * depth, "rom": "low_rom", "files": {}, "bins": {}, "hist": {}})
+            progs.append({"src": "top := 3\n" + "".join(f".for i{i} := 0, 1 {{\n" for i in range(depth)) + ".db top\n" + "}\n" * depth, "rom": "low_rom", "files": {}, "bins": {}, "hist": {}})
         # included patch files that stop anywhere (no EOF marker, inside a record header, inside EO…)
         full = b"PATCH" + b"\x00\x00\x10\x00\x02\xaa\xbb" + b"\x00\x00\x20\x00\x00\x00\x03\xcc" + b"EOF"
         for cut in sorted(set([0, 3, 5, 6, 8, 10, 12, 14, 17, 20, len(full) - 2, len(full) - 1, len(full)] + [rng.randrange(len(full)) for _ in range(4)])):
